@@ -5,7 +5,7 @@ out="$1"; per="$2"
 while read -r file props; do
   [ -z "$file" ] && continue
   dir=/tmp/mutgen/$(echo $file | tr '/' '_')
-  rm -rf $dir; python3 /verif/dev/mutgen.py $file $dir $per 7 >> "$out"
+  rm -rf $dir; python3 /verif/dev/mutgen.py $file $dir $per ${MUT_SEED:-7} >> "$out"
   for p in $dir/*.patch; do
     res=$(/verif/dev/mutcheck.sh $p $props 2>&1 | cut -c1-150)
     verdict=SURVIVED
